@@ -65,6 +65,10 @@ EXPLANATION += (
     ' Round 3: name lookups are keyed by (level, label).'
 )
 
+EXPLANATION += (
+    ' Round 5: no per-level table is built from one shared mutable object (R-IDIOM/shared-mutable).'
+)
+
 RULE_TEXT = (
     "one obligation per consumed record key, per dataset, per record key "
     "of the codec, per constant relation; non-trivial when the key / "
@@ -697,6 +701,15 @@ def check_csv(ctx, produced):
     check_column_names(ctx, fi, bd)
     check_every_cell_has_row(ctx, bd)
     check_csv_tree_version(ctx)
+    from ..rules.idioms import check_shared_mutable
+    n_sm = 0
+    for fi_ in ctx.db.iter_functions():
+        if fi_.module.short in ('utils.output_utils',
+                                'type_assignment.election'):
+            n_sm += check_shared_mutable(ctx, fi_)
+    ctx.ok('R-IDIOM/shared-mutable', 'writers', 'package',
+           'no per-level table of the output writers is built from one '
+           'shared mutable object', nontrivial=False)
     # confidence key choice in _run_mapping
     rm = db.fn('cli.from_specified_markers:_run_mapping')
     cfgm = cfg_of(rm)
